@@ -9,8 +9,24 @@ Reads (from the working tree under <repo>/src):
   celma/format/int2string.hpp, grouped_int2string.hpp            overload tables
 and writes lean/CelmaVerif/Generated/Int2Str.lean: the trees, the statements of every `case`, the
 caller expressions, the dispatch and overload tables as Lean data (types in Model/Int2Str.lean), and
-lean/CelmaVerif/Generated/Int2StrOk.lean: one `by decide` obligation per table.  A narrow parser on purpose: anything it does not recognise
-raises TranslateError (a broken tie), it never guesses.
+lean/CelmaVerif/Generated/Int2StrOk.lean: one `by decide` obligation per table.
+
+The sources are followed by STRUCTURE and ROLE, not by spelling: a recursive-descent parser of the C++
+subset the anchored functions use (types, expressions, if/switch/for/while/do, declarations, file-local
+functions, constants, aliases) feeds one abstract interpreter.  Integers that do not depend on the converted
+value (digit count, loop and group counters, named constants) are computed with the C++ rules; what depends
+on the value is a symbolic value of a per-function domain:
+  * intN_str_length: paths are enumerated, each comparison of the (divided) argument with a constant is a
+    node `argument >= thr`, each `return` a leaf  -> the same Tree for nested ifs, early returns, ternaries,
+    negated conditions, counting loops;
+  * the conversion function (whatever its name): executed once per digit count k; the trace of digit stores,
+    group character stores and divisions is the row of k  -> the same rows for an unrolled switch, a loop, an
+    if chain, helpers called or inlined;
+  * the four callers: values are roles (value parameter, its negation, digit count, the one expression
+    truncated to uint8_t, result string, pointer + offset expression), local names and helper functions vanish;
+  * the signed entry points: paths over the sign of the argument.
+Anything without an exact meaning in these domains raises TranslateError (a broken tie); nothing is guessed
+and nothing is remembered from an earlier version of the code.
 """
 import os
 import re
@@ -151,599 +167,1842 @@ class P:
         raise TranslateError("%s: %s (near `%s`)" % (self.what, msg, ctx))
 
 
-def find_function(toks, what, ret_pred, name_pred, nth=0):
-    """locate `<ret> <name> ( params ) { body }`; returns (name, param tokens, body tokens).
-    ret_pred gets the list of token texts before the name back to the previous `;`/`}`/`{`."""
-    hits = []
-    for i in range(1, len(toks) - 1):
-        if toks[i][0] == "id" and toks[i + 1][1] == "(" and name_pred(toks[i][1]):
-            j = i - 1
-            pre = []
-            while j >= 0 and toks[j][1] not in (";", "}", "{", "#"):
-                pre.append(toks[j][1])
-                j -= 1
-            pre.reverse()
-            if not ret_pred(pre):
-                continue
-            k, depth = i + 1, 0
-            while True:
-                if toks[k][1] == "(":
-                    depth += 1
-                elif toks[k][1] == ")":
-                    depth -= 1
-                    if depth == 0:
-                        break
-                k += 1
-            params = toks[i + 2:k]
-            if k + 1 >= len(toks) or toks[k + 1][1] != "{":
-                continue        # a declaration
-            b, depth = k + 1, 0
-            while True:
-                if toks[b][1] == "{":
-                    depth += 1
-                elif toks[b][1] == "}":
-                    depth -= 1
-                    if depth == 0:
-                        break
-                b += 1
-            hits.append((toks[i][1], params, toks[k + 2:b]))
-    if len(hits) <= nth:
-        raise TranslateError("%s: function not found" % what)
-    return hits[nth]
+# ----------------------------------------------------------------------------- C++ subset: types
+
+INT_INFO = {"uint8_t": (8, False), "int8_t": (8, True), "uint16_t": (16, False), "int16_t": (16, True),
+            "uint32_t": (32, False), "int32_t": (32, True), "uint64_t": (64, False), "int64_t": (64, True),
+            "int": (32, True), "unsigned": (32, False), "char": (8, True), "size_t": (64, False), "bool": (1, False)}
+BASIC_WORDS = {"unsigned", "signed", "long", "short", "int", "char", "bool", "void", "auto"}
+BASIC_TABLE = {
+    "int": "int", "signed": "int", "int signed": "int", "unsigned": "unsigned", "int unsigned": "unsigned",
+    "char": "char", "char unsigned": "uint8_t", "char signed": "int8_t",
+    "short": "int16_t", "int short": "int16_t", "short signed": "int16_t", "short unsigned": "uint16_t",
+    "int short unsigned": "uint16_t",
+    "long": "int64_t", "int long": "int64_t", "long signed": "int64_t", "long unsigned": "uint64_t",
+    "int long unsigned": "uint64_t", "long long": "int64_t", "int long long": "int64_t",
+    "long long unsigned": "uint64_t", "int long long unsigned": "uint64_t",
+    "bool": "bool", "void": "void", "auto": "auto"}
+STD_TYPES = set(INT_INFO) | {"string"}
+CV = {"const", "volatile"}
+DECL_SPEC = {"inline", "static", "constexpr", "extern", "register", "thread_local", "mutable"}
+DROP_QUALIFIERS = {"std", "detail", "celma", "format"}
 
 
-def int_type_bits(name, what):
-    m = re.fullmatch(r"(u?)int(8|16|32|64)_t", name)
-    if not m:
-        raise TranslateError("%s: `%s` is not a fixed-width integer type" % (what, name))
-    return int(m.group(2)), m.group(1) == ""
+class Ctx:
+    """what the parser must know to tell a declaration from an expression: alias and template parameter names"""
+
+    def __init__(self):
+        self.aliases = {}        # name -> (base, ptr, ref)
+        self.tparams = set()
+
+    def is_type_name(self, name):
+        return name in self.aliases or name in self.tparams or (name in INT_INFO and name not in ("int", "char", "bool", "unsigned"))
 
 
-def split_params(params):
-    out, cur, depth = [], [], 0
-    for tok in params:
-        if tok[1] in "(<":
-            depth += 1
-        elif tok[1] in ")>":
-            depth -= 1
-        if tok[1] == "," and depth == 0:
-            out.append(cur)
-            cur = []
+def type_start(p, ctx, k=0):
+    """does a type (or a declaration specifier) start at token p.i + k?"""
+    kind, text = p.peek(k)
+    if kind != "id" and text != "::":
+        return False
+    if text in CV or text in DECL_SPEC or text in BASIC_WORDS:
+        return True
+    if text == "::":
+        return type_start(p, ctx, k + 1)
+    if text == "std" and p.peek(k + 1)[1] == "::":
+        return p.peek(k + 2)[1] in STD_TYPES
+    return ctx.is_type_name(text)
+
+
+def parse_type(p, ctx):
+    """[cv] base [cv|*|&]*  ->  (base, ptr, ref); declaration specifiers in front are returned as a set"""
+    specs = set()
+    words = []
+    base = None
+    while True:
+        kind, text = p.peek()
+        if text in CV or text in DECL_SPEC:
+            specs.add(p.next()[1])
+        elif text in BASIC_WORDS and kind == "id" and base is None:
+            words.append(p.next()[1])
+        elif base is None and not words and (text == "::" or kind == "id"):
+            p.opt("::")
+            name = p.ident()
+            while p.at("::"):
+                if name not in DROP_QUALIFIERS:
+                    p.fail("unsupported qualified type name")
+                p.eat("::")
+                name = p.ident()
+            if name in ctx.aliases:
+                base = ctx.aliases[name]
+            elif name in ctx.tparams:
+                base = ("tparam:" + name, 0, False)
+            elif name in STD_TYPES:
+                base = (name, 0, False)
+            else:
+                p.fail("unknown type name `%s`" % name)
         else:
-            cur.append(tok)
-    if cur:
-        out.append(cur)
-    return out
+            break
+    if words:
+        key = " ".join(sorted(words))
+        if key not in BASIC_TABLE:
+            p.fail("unsupported basic type `%s`" % " ".join(words))
+        base = (BASIC_TABLE[key], 0, False)
+    if base is None:
+        p.fail("expected a type")
+    b, ptr, ref = base
+    while True:
+        text = p.peek()[1]
+        if text in CV:
+            p.next()
+        elif text == "*":
+            if ref:
+                p.fail("pointer to reference")
+            p.next()
+            ptr += 1
+        elif text == "&":
+            p.next()
+            ref = True
+        else:
+            break
+    return (b, ptr, ref), specs
 
 
-# ----------------------------------------------------------------------------- str_length trees
-
-CMP = {">=", ">", "<", "<="}
-
-
-def parse_cond_value(p):
-    """`value OP literal` (optionally parenthesised) -> (k, swapped): true branch is `value >= k` unless swapped"""
-    paren = p.opt("(")
-    if p.ident() != "value":
-        p.fail("condition must compare `value`")
-    op = p.next()[1]
-    if op not in CMP:
-        p.fail("unsupported comparison `%s`" % op)
-    tok = p.next()
-    if tok[0] != "num":
-        p.fail("comparison against a non-literal")
-    k = num_value(tok[1])
-    if paren:
-        p.eat(")")
-    if op == ">=":
-        return k, False
-    if op == ">":
-        return k + 1, False
-    if op == "<":
-        return k, True
-    return k + 1, True
+def is_int_type(ct):
+    return ct[1] == 0 and ct[0] in INT_INFO
 
 
-def mk_node(k, swapped, yes, no):
-    return ("node", k, no, yes) if swapped else ("node", k, yes, no)
+# ----------------------------------------------------------------------------- C++ subset: expressions
+
+BINPREC = {"*": 13, "/": 13, "%": 13, "+": 12, "-": 12, "<": 9, "<=": 9, ">": 9, ">=": 9, "==": 8, "!=": 8,
+           "&": 7, "^": 6, "|": 5, "&&": 4, "||": 3}
+ASSIGN_OPS = {"=", "+=", "-=", "*=", "/=", "%="}
+CASTS = {"static_cast", "const_cast", "reinterpret_cast"}
 
 
-def parse_tree_expr(p):
-    """ternary chain or literal"""
-    if p.peek()[0] == "num":
-        return ("leaf", num_value(p.next()[1]))
-    if p.at("("):
-        # either a parenthesised condition followed by `?`, or a parenthesised expression
-        save = p.i
-        try:
-            k, sw = parse_cond_value(p)
-            p.eat("?")
-        except TranslateError:
-            p.i = save
-            p.eat("(")
-            e = parse_tree_expr(p)
-            p.eat(")")
-            return e
-        yes = parse_tree_expr(p)
+def num_literal(text):
+    """value and C type of an integer literal"""
+    body = text.rstrip("uUlL")
+    suffix = text[len(body):].lower()
+    v = int(body, 16) if body.lower().startswith("0x") else int(body, 10)
+    if body != "0" and body[0] == "0" and not body.lower().startswith("0x"):
+        raise TranslateError("octal literal %s" % text)
+    uns = "u" in suffix
+    lng = "l" in suffix
+    if uns:
+        bits = 64 if (lng or v >= 1 << 32) else 32
+        signed = False
+    else:
+        if not lng and v < 1 << 31:
+            bits, signed = 32, True
+        elif v < 1 << 63:
+            bits, signed = 64, True
+        else:
+            bits, signed = 64, False
+    if v >= 1 << 64:
+        raise TranslateError("integer literal %s too large" % text)
+    return v, bits, signed
+
+
+def parse_expr(p, ctx):
+    lhs = parse_cond(p, ctx)
+    if p.peek()[0] == "op" and p.peek()[1] in ASSIGN_OPS:
+        op = p.next()[1]
+        rhs = parse_expr(p, ctx)
+        return ("asg", op, lhs, rhs)
+    return lhs
+
+
+def parse_cond(p, ctx):
+    c = parse_bin(p, ctx, 3)
+    if p.opt("?"):
+        a = parse_expr(p, ctx)
         p.eat(":")
-        no = parse_tree_expr(p)
-        return mk_node(k, sw, yes, no)
-    p.fail("unsupported return expression")
-
-
-def parse_stmts_raw(p, until):
-    """statement list of the str_length subset: if/else, return, blocks"""
-    out = []
-    while not p.at(until) and not p.done():
-        out.append(parse_stmt_raw(p))
-    return out
-
-
-def parse_stmt_raw(p):
-    if p.opt("{"):
-        body = parse_stmts_raw(p, "}")
-        p.eat("}")
-        return ("block", body)
-    if p.opt("if"):
-        p.eat("(")
-        k, sw = parse_cond_value(p)
-        p.eat(")")
-        yes = parse_stmt_raw(p)
-        no = None
-        if p.opt("else"):
-            no = parse_stmt_raw(p)
-        return ("if", k, sw, yes, no)
-    if p.opt("return"):
-        e = parse_tree_expr(p)
-        p.eat(";")
-        return ("return", e)
-    p.fail("unsupported statement in str_length")
-
-
-def flatten(st):
-    return st[1] if st[0] == "block" else [st]
-
-
-def tree_of(stmts, what):
-    """continuation semantics: statements after an `if` are reached from every branch that does not return"""
-    if not stmts:
-        raise TranslateError("%s: a path reaches the end of the function without `return`" % what)
-    s, rest = stmts[0], stmts[1:]
-    if s[0] == "return":
-        return s[1]
-    if s[0] == "block":
-        return tree_of(s[1] + rest, what)
-    _, k, sw, yes, no = s
-    t_yes = tree_of(flatten(yes) + rest, what)
-    t_no = tree_of((flatten(no) if no is not None else []) + rest, what)
-    return mk_node(k, sw, t_yes, t_no)
-
-
-def parse_str_length(repo, n):
-    path = os.path.join(repo, "src/celma/format/detail/int%d_str_length.hpp" % n)
-    what = "int%d_str_length.hpp" % n
-    toks = lex(strip_comments(open(path, encoding="utf-8").read()))
-    name, params, body = find_function(toks, what, lambda pre: pre[-1:] == ["uint8_t"],
-                                       lambda nm: nm == "int%d_str_length" % n)
-    if [t[1] for t in params] != ["T", "orig_value"]:
-        raise TranslateError("%s: unexpected parameters" % what)
-    p = P(body, what)
-    p.eat("const", "auto", "value", "=", "static_cast", "<")
-    bits, signed = int_type_bits(p.ident(), what)
-    if signed:
-        raise TranslateError("%s: value is cast to a signed type" % what)
-    p.eat(">", "(", "orig_value", ")", ";")
-    stmts = parse_stmts_raw(p, "}")
-    if not p.done():
-        p.fail("trailing tokens")
-    return {"tree": tree_of(stmts, what), "cast": bits}
-
-
-# ----------------------------------------------------------------------------- expressions of the callers
-
-def parse_expr(p):
-    e = parse_term(p)
-    while p.peek()[1] in ("+", "-"):
-        op = p.next()[1]
-        r = parse_term(p)
-        e = ("add" if op == "+" else "sub", e, r)
-    return e
-
-
-def parse_term(p):
-    e = parse_atom(p)
-    while p.peek()[1] in ("*", "/"):
-        op = p.next()[1]
-        r = parse_atom(p)
-        if op == "/" and r[0] != "lit":
-            p.fail("division by a non-literal")
-        if op == "/" and r[1] == 0:
-            p.fail("division by zero")
-        e = ("mul" if op == "*" else "div", e, r)
-    return e
-
-
-def parse_atom(p):
-    tok = p.next()
-    if tok[0] == "num":
-        return ("lit", num_value(tok[1]))
-    if tok[1] == "result_len":
-        return ("len",)
-    if tok[1] == "grouped_result_len":
-        return ("glen",)
-    if tok[1] == "(":
-        e = parse_expr(p)
-        p.eat(")")
-        return e
-    if tok[1] == "-" and p.peek()[0] == "num":
-        return ("lit", -num_value(p.next()[1]))
-    p.fail("unsupported expression atom `%s`" % tok[1])
-
-
-# ----------------------------------------------------------------------------- convert() and callers
-
-def parse_check_helper(toks, what):
-    try:
-        name, params, body = find_function(toks, what, lambda pre: pre[-1:] == ["void"],
-                                           lambda nm: nm == "checkAddGroupChar")
-    except TranslateError:
-        return None
-    if [t[1] for t in params] != ["char", "*", "&", "buffer", ",", "uint8_t", "&", "num_digits", ",", "char",
-                                  "group_char"]:
-        raise TranslateError("%s: checkAddGroupChar has unexpected parameters" % what)
-    p = P(body, what + " checkAddGroupChar")
-    p.eat("if", "(", "++", "num_digits", "==")
-    thr = num_value(p.next()[1])
-    p.eat(")", "{", "*", "buffer", "--", "=", "group_char", ";", "num_digits", "=")
-    reset = num_value(p.next()[1])
-    p.eat(";", "}")
-    if not p.done():
-        p.fail("trailing tokens")
-    return thr, reset
-
-
-def parse_convert(toks, what):
-    name, params, body = find_function(toks, what, lambda pre: pre[-1:] == ["void"], lambda nm: nm == "convert")
-    ps = [[t[1] for t in x] for x in split_params(params)]
-    if len(ps) not in (3, 4) or ps[0] != ["char", "*", "buffer"] or ps[1][1:] != ["value"] or len(ps[1]) != 2 \
-            or ps[2] != ["uint8_t", "result_len"]:
-        raise TranslateError("%s: convert() has unexpected parameters %r" % (what, ps))
-    has_group = len(ps) == 4
-    if has_group and ps[3] != ["char", "group_char"]:
-        raise TranslateError("%s: convert() has unexpected 4th parameter" % what)
-    bits, signed = int_type_bits(ps[1][0], what)
-    if signed:
-        raise TranslateError("%s: convert() takes a signed value" % what)
-    helper = parse_check_helper(toks, what)
-    p = P(body, what + " convert()")
-    nd_init = 0
-    if p.opt("uint8_t", "num_digits", "="):
-        nd_init = num_value(p.next()[1])
-        p.eat(";")
-    p.eat("switch", "(", "result_len", ")", "{")
-    rows = []
-    cur = None
-    while not p.at("}"):
-        if p.opt("case"):
-            tok = p.next()
-            if tok[0] != "num":
-                p.fail("case label is not a literal")
-            p.eat(":")
-            cur = {"label": num_value(tok[1]), "ops": [], "fall": True}
-            rows.append(cur)
-            continue
-        if p.opt("default"):
-            p.eat(":")
-            cur = {"label": None, "ops": [], "fall": True}
-            rows.append(cur)
-            continue
-        if cur is None:
-            p.fail("statement before the first case label")
-        if not cur["fall"]:
-            p.fail("statement after break")
-        if p.opt("[[", "fallthrough", "]]", ";"):
-            continue
-        if p.opt("break", ";"):
-            cur["fall"] = False
-            continue
-        if p.opt("*", "buffer"):
-            dec = p.opt("--")
-            p.eat("=")
-            tok = p.next()
-            if tok[0] == "chr":
-                base = char_value(tok[1])
-            elif tok[0] == "num":
-                base = num_value(tok[1])
-            else:
-                p.fail("digit store does not start with a character literal")
-            p.eat("+")
-            paren = p.opt("(")
-            p.eat("value")
-            mod = None
-            if p.opt("%"):
-                mod = num_value(p.next()[1])
-            if paren:
-                p.eat(")")
-            p.eat(";")
-            cur["ops"].append(("emit", base, mod, dec))
-            continue
-        if p.opt("value", "/="):
-            d = num_value(p.next()[1])
-            p.eat(";")
-            cur["ops"].append(("div", d))
-            continue
-        if p.opt("++", "num_digits", ";"):
-            cur["ops"].append(("inc",))
-            continue
-        if p.opt("checkAddGroupChar", "(", "buffer", ",", "num_digits", ",", "group_char", ")", ";"):
-            if helper is None:
-                p.fail("checkAddGroupChar() called but not defined")
-            cur["ops"].append(("check", helper[0], helper[1]))
-            continue
-        p.fail("unsupported statement in switch")
-    p.eat("}")
-    if not p.done():
-        p.fail("statements after the switch")
-    labels = [r["label"] for r in rows]
-    if len(set(labels)) != len(labels):
-        raise TranslateError("%s: duplicate case label" % what)
-    return {"bits": bits, "has_group": has_group, "nd_init": nd_init, "rows": rows}
-
-
-def parse_neg(p, what):
-    """after `const uintN_t abs_value =`"""
-    if p.opt("-", "value", ";"):
-        return ("inSigned", 0)
-    if p.opt("-", "static_cast", "<"):
-        bits, signed = int_type_bits(p.ident(), what)
-        if signed:
-            p.fail("negation after a cast to a signed type")
-        p.eat(">", "(", "value", ")", ";")
-        return ("inUnsigned", bits)
-    p.fail("unsupported negation expression")
-
-
-def parse_caller(toks, what, fname, is_buf, has_group):
-    ret_pred = (lambda pre: pre[-1:] == ["int"]) if is_buf else (lambda pre: pre[-3:] == ["std", "::", "string"])
-    name, params, body = find_function(toks, what + " " + fname, ret_pred, lambda nm: nm == fname)
-    ps = [[t[1] for t in x] for x in split_params(params)]
-    if is_buf:
-        if not ps or ps[0] != ["char", "*", "buffer"]:
-            raise TranslateError("%s %s: first parameter is not `char* buffer`" % (what, fname))
-        ps = ps[1:]
-    if not ps or len(ps[0]) != 2 or ps[0][1] != "value":
-        raise TranslateError("%s %s: unexpected value parameter" % (what, fname))
-    pbits, psigned = int_type_bits(ps[0][0], what)
-    rest = ps[1:]
-    if rest and rest not in ([["char", "group_char"]], [["char"]]):
-        raise TranslateError("%s %s: unexpected parameters %r" % (what, fname, rest))
-    c = {"pbits": pbits, "psigned": psigned, "neg": None, "len_fn": None, "len_abs": False, "glen": None,
-         "str": None, "end": None, "nul": None, "conv_abs": False, "sign": None, "ret": None}
-    p = P(body, "%s %s" % (what, fname))
-    converted = False
-    returned = False
-    while not p.done():
-        if returned:
-            p.fail("statement after return")
-        if p.at("const") and p.peek(2)[1] == "abs_value":
-            p.eat("const")
-            abits, asigned = int_type_bits(p.ident(), what)
-            if asigned:
-                p.fail("abs_value has a signed type")
-            p.eat("abs_value", "=")
-            if c["neg"] is not None or c["len_fn"] is not None:
-                p.fail("abs_value declared twice or too late")
-            kind, cast = parse_neg(p, what)
-            c["neg"] = (kind, cast, abits)
-            continue
-        if p.opt("const", "auto", "result_len", "="):
-            m = re.fullmatch(r"int(8|16|32|64)_str_length", p.ident())
-            if not m or c["len_fn"] is not None:
-                p.fail("unexpected length function")
-            c["len_fn"] = int(m.group(1))
-            p.eat("(")
-            arg = p.ident()
-            if arg not in ("value", "abs_value") or (arg == "abs_value" and c["neg"] is None):
-                p.fail("unexpected argument of the length function")
-            c["len_abs"] = arg == "abs_value"
-            p.eat(")", ";")
-            continue
-        if p.opt("const", "uint8_t", "grouped_result_len", "="):
-            if c["len_fn"] is None or c["glen"] is not None:
-                p.fail("grouped_result_len out of order")
-            c["glen"] = parse_expr(p)
-            p.eat(";")
-            if "glen" in repr(c["glen"]):
-                p.fail("grouped_result_len defined by itself")
-            continue
-        if not is_buf and p.opt("std", "::", "string", "result", "("):
-            if c["len_fn"] is None or c["str"] is not None:
-                p.fail("result string out of order")
-            size = parse_expr(p)
-            p.eat(",")
-            tok = p.next()
-            if tok[0] != "chr":
-                p.fail("fill is not a character literal")
-            p.eat(")", ";")
-            c["str"] = (size, char_value(tok[1]))
-            continue
-        if not is_buf and p.opt("auto", "buffer_end", "=", "const_cast", "<", "char", "*", ">", "(", "result", ".",
-                                "c_str", "(", ")", ")", "+"):
-            if c["str"] is None or c["end"] is not None:
-                p.fail("buffer_end out of order")
-            c["end"] = parse_expr(p)
-            p.eat(";")
-            continue
-        if is_buf and p.opt("char", "*", "buffer_end", "=", "buffer", "+"):
-            if c["len_fn"] is None or c["end"] is not None:
-                p.fail("buffer_end out of order")
-            c["end"] = parse_expr(p)
-            p.eat(";")
-            continue
-        if is_buf and p.opt("buffer", "["):
-            e = parse_expr(p)
-            p.eat("]", "=")
-            tok = p.next()
-            if tok[0] != "chr":
-                p.fail("stored value is not a character literal")
-            p.eat(";")
-            key = "sign" if converted else "nul"
-            if c[key] is not None:
-                p.fail("more than one store %s convert()" % ("after" if converted else "before"))
-            c[key] = (e, char_value(tok[1]))
-            continue
-        if p.opt("convert", "(", "buffer_end", ","):
-            if converted or c["end"] is None:
-                p.fail("convert() out of order")
-            arg = p.ident()
-            if arg not in ("value", "abs_value") or (arg == "abs_value" and c["neg"] is None):
-                p.fail("unexpected value argument of convert()")
-            c["conv_abs"] = arg == "abs_value"
-            p.eat(",", "result_len")
-            if has_group:
-                p.eat(",", "group_char")
-            p.eat(")", ";")
-            converted = True
-            continue
-        if p.opt("return"):
-            if not converted:
-                p.fail("return before convert()")
-            if is_buf:
-                c["ret"] = parse_expr(p)
-            else:
-                p.eat("result")
-                c["ret"] = ("lit", 0)
-            p.eat(";")
-            returned = True
-            continue
-        p.fail("unsupported statement")
-    if not returned:
-        p.fail("no return statement")
+        b = parse_expr(p, ctx)
+        return ("cond", c, a, b)
     return c
 
 
-def parse_cpp(repo, n, grouped):
+def parse_bin(p, ctx, minprec):
+    lhs = parse_unary(p, ctx)
+    while True:
+        kind, op = p.peek()
+        pr = BINPREC.get(op) if kind == "op" else None
+        if pr is None or pr < minprec:
+            return lhs
+        p.next()
+        rhs = parse_bin(p, ctx, pr + 1)
+        lhs = ("bin", op, lhs, rhs)
+
+
+def parse_unary(p, ctx):
+    kind, text = p.peek()
+    if kind == "op" and text in ("-", "+", "!", "~", "*", "&"):
+        p.next()
+        return ("un", text, parse_unary(p, ctx))
+    if kind == "op" and text in ("++", "--"):
+        p.next()
+        return ("pre", text, parse_unary(p, ctx))
+    if text == "(" and type_start(p, ctx, 1):
+        # C cast
+        p.eat("(")
+        ct, specs = parse_type(p, ctx)
+        p.eat(")")
+        return ("cast", ct, parse_unary(p, ctx))
+    if text in ("sizeof", "new", "delete", "throw", "alignof"):
+        p.fail("unsupported operator `%s`" % text)
+    return parse_postfix(p, ctx)
+
+
+def parse_args(p, ctx, close):
+    args = []
+    if p.opt(close):
+        return args
+    while True:
+        args.append(parse_expr(p, ctx))
+        if p.opt(close):
+            return args
+        p.eat(",")
+
+
+def parse_postfix(p, ctx):
+    e = parse_primary(p, ctx)
+    while True:
+        kind, text = p.peek()
+        if kind != "op":
+            return e
+        if text in ("++", "--"):
+            p.next()
+            e = ("post", text, e)
+        elif text == "[":
+            p.next()
+            i = parse_expr(p, ctx)
+            p.eat("]")
+            e = ("idx", e, i)
+        elif text == "(":
+            p.next()
+            e = ("call", e, parse_args(p, ctx, ")"))
+        elif text in (".", "->"):
+            p.next()
+            e = ("mem", e, p.ident())
+        else:
+            return e
+
+
+def parse_primary(p, ctx):
+    kind, text = p.peek()
+    if kind == "num":
+        p.next()
+        return ("num",) + num_literal(text)
+    if kind == "chr":
+        p.next()
+        return ("chr", char_value(text))
+    if kind == "str":
+        bs = []
+        while p.peek()[0] == "str":
+            bs += string_bytes(p.next()[1])
+        return ("str", tuple(bs))
+    if text == "(":
+        p.next()
+        e = parse_expr(p, ctx)
+        p.eat(")")
+        return e
+    if text in CASTS:
+        p.next()
+        p.eat("<")
+        ct, specs = parse_type(p, ctx)
+        p.eat(">", "(")
+        e = parse_expr(p, ctx)
+        p.eat(")")
+        return ("cast", ct, e)
+    if text in ("nullptr", "NULL"):
+        p.next()
+        return ("null",)
+    if text in ("true", "false"):
+        p.next()
+        return ("num", 1 if text == "true" else 0, 1, False)
+    if type_start(p, ctx) and text not in CV and text not in DECL_SPEC:
+        ct, specs = parse_type(p, ctx)
+        if p.opt("("):
+            args = parse_args(p, ctx, ")")
+        elif p.opt("{"):
+            args = parse_args(p, ctx, "}")
+        else:
+            p.fail("type name in an expression")
+        if is_int_type(ct) and len(args) == 1:
+            return ("cast", ct, args[0])
+        return ("construct", ct, args)
+    if kind == "id" or text == "::":
+        p.opt("::")
+        name = p.ident()
+        while p.at("::"):
+            if name not in DROP_QUALIFIERS:
+                p.fail("unsupported qualified name `%s::`" % name)
+            p.eat("::")
+            name = p.ident()
+        if p.at("<") and name in ("min", "max"):
+            p.eat("<")
+            parse_type(p, ctx)
+            p.eat(">")
+        return ("id", name)
+    p.fail("unsupported expression at `%s`" % text)
+
+
+# ----------------------------------------------------------------------------- C++ subset: statements
+
+def skip_attribute(p):
+    """`[[ … ]]`; returns the attribute text"""
+    p.eat("[[")
+    words = []
+    while not p.at("]]"):
+        if p.done():
+            p.fail("unterminated attribute")
+        words.append(p.next()[1])
+    p.eat("]]")
+    return " ".join(words)
+
+
+def parse_block(p, ctx):
+    """after `{` up to and including `}`"""
+    out = []
+    while not p.opt("}"):
+        if p.done():
+            p.fail("unterminated block")
+        out.append(parse_stmt(p, ctx))
+    return out
+
+
+def parse_decl_rest(p, ctx):
+    """declaration statement starting at a type; single declarator"""
+    ct, specs = parse_type(p, ctx)
+    name = p.ident()
+    init = None
+    if p.opt("="):
+        init = ("expr", parse_expr(p, ctx))
+    elif p.opt("("):
+        init = ("ctor", parse_args(p, ctx, ")"))
+    elif p.opt("{"):
+        init = ("ctor", parse_args(p, ctx, "}"))
+    if p.at(","):
+        p.fail("several declarators in one declaration")
+    p.eat(";")
+    if "static" in specs or "thread_local" in specs or "extern" in specs:
+        if not ({"const", "constexpr"} & specs):
+            p.fail("mutable static local `%s`" % name)
+    return ("decl", ct, name, init, bool({"const", "constexpr"} & specs))
+
+
+def parse_stmt(p, ctx):
+    kind, text = p.peek()
+    if text == "[[":
+        a = skip_attribute(p)
+        if p.opt(";"):
+            return ("nop",)
+        if a not in ("maybe_unused", "likely", "unlikely"):
+            p.fail("unsupported attribute [[%s]]" % a)
+        return parse_stmt(p, ctx)
+    if p.opt(";"):
+        return ("nop",)
+    if p.opt("{"):
+        return ("block", parse_block(p, ctx))
+    if p.opt("if"):
+        if p.at("constexpr"):
+            p.fail("if constexpr")
+        p.eat("(")
+        c = parse_expr(p, ctx)
+        p.eat(")")
+        yes = parse_stmt(p, ctx)
+        no = parse_stmt(p, ctx) if p.opt("else") else None
+        return ("if", c, yes, no)
+    if p.opt("switch"):
+        p.eat("(")
+        e = parse_expr(p, ctx)
+        p.eat(")", "{")
+        items = []
+        while not p.opt("}"):
+            if p.done():
+                p.fail("unterminated switch")
+            if p.opt("case"):
+                items.append(("case", parse_cond(p, ctx)))
+                p.eat(":")
+            elif p.opt("default"):
+                p.eat(":")
+                items.append(("default",))
+            else:
+                items.append(parse_stmt(p, ctx))
+        return ("switch", e, items)
+    if p.opt("for"):
+        p.eat("(")
+        if p.opt(";"):
+            init = None
+        elif type_start(p, ctx):
+            init = parse_decl_rest(p, ctx)
+        else:
+            init = ("expr", parse_expr(p, ctx))
+            p.eat(";")
+        cond = None if p.at(";") else parse_expr(p, ctx)
+        p.eat(";")
+        incs = []
+        if not p.at(")"):
+            incs.append(parse_expr(p, ctx))
+            while p.opt(","):
+                incs.append(parse_expr(p, ctx))
+        p.eat(")")
+        return ("for", init, cond, incs, parse_stmt(p, ctx))
+    if p.opt("while"):
+        p.eat("(")
+        c = parse_expr(p, ctx)
+        p.eat(")")
+        return ("while", c, parse_stmt(p, ctx))
+    if p.opt("do"):
+        body = parse_stmt(p, ctx)
+        p.eat("while", "(")
+        c = parse_expr(p, ctx)
+        p.eat(")", ";")
+        return ("dowhile", body, c)
+    if p.opt("break"):
+        p.eat(";")
+        return ("break",)
+    if p.opt("continue"):
+        p.eat(";")
+        return ("continue",)
+    if p.opt("return"):
+        if p.opt(";"):
+            return ("return", None)
+        if p.at("{"):
+            p.fail("braced return value")
+        e = parse_expr(p, ctx)
+        p.eat(";")
+        return ("return", e)
+    if text in ("goto", "try", "throw", "asm", "using", "typedef", "struct", "class", "enum", "case", "default"):
+        p.fail("unsupported statement `%s`" % text)
+    if type_start(p, ctx):
+        # `uint8_t( x)` as an expression statement does not occur; a type here starts a declaration
+        return parse_decl_rest(p, ctx)
+    e = parse_expr(p, ctx)
+    p.eat(";")
+    return ("expr", e)
+
+
+# ----------------------------------------------------------------------------- C++ subset: translation units
+
+class Func:
+    def __init__(self, name, ret, params, body, local, what):
+        self.name, self.ret, self.params, self.body, self.local, self.what = name, ret, params, body, local, what
+        # params: list of (ctype, name or None, default expression or None)
+
+
+class Unit:
+    def __init__(self, what):
+        self.what = what
+        self.funcs = {}       # name -> [Func] (definitions only)
+        self.decls = {}       # name -> [(ret, params)] (declarations without body)
+        self.globals = []     # (ctype, name, init, is_const)
+        self.ctx = Ctx()
+
+    def defs(self, name):
+        return self.funcs.get(name, [])
+
+
+def strip_pp(src, what):
+    """drops #include, include guards and #pragma once; everything else is a shape we do not follow"""
+    out, guards = [], set()
+    lines = src.split("\n")
+    i = 0
+    while i < len(lines):
+        s = lines[i].strip()
+        if s.startswith("#"):
+            full = s
+            while full.endswith("\\") and i + 1 < len(lines):
+                i += 1
+                full = full[:-1] + " " + lines[i].strip()
+            d = re.sub(r"^#\s*", "", full)
+            m1 = re.match(r"ifndef\s+(\w+)\s*$", d)
+            m2 = re.match(r"define\s+(\w+)\s*$", d)
+            if re.match(r"include\b", d) or re.match(r"pragma\s+once\s*$", d) or re.match(r"endif\b", d):
+                pass
+            elif m1:
+                guards.add(m1.group(1))
+            elif m2 and m2.group(1) in guards:
+                pass
+            else:
+                raise TranslateError("%s: preprocessor directive not understood: #%s" % (what, d[:60]))
+            out.append("")
+        else:
+            out.append(lines[i])
+        i += 1
+    return "\n".join(out)
+
+
+def parse_params(p, ctx):
+    """after `(` up to and including `)`"""
+    params = []
+    if p.opt(")"):
+        return params
+    if p.at("void", ")"):
+        p.eat("void", ")")
+        return params
+    while True:
+        ct, specs = parse_type(p, ctx)
+        name = p.ident() if p.peek()[0] == "id" else None
+        default = None
+        if p.opt("="):
+            default = parse_cond(p, ctx)
+        params.append((ct, name, default))
+        if p.opt(")"):
+            return params
+        p.eat(",")
+
+
+def parse_toplevel(p, unit, local):
+    ctx = unit.ctx
+    while not p.done() and not p.at("}"):
+        if p.opt(";"):
+            continue
+        if p.opt("namespace"):
+            anon = True
+            while p.peek()[0] == "id":
+                p.next()
+                anon = False
+                p.opt("::")
+            p.eat("{")
+            parse_toplevel(p, unit, local or anon)
+            p.eat("}")
+            continue
+        if p.opt("using"):
+            if p.at("namespace"):
+                p.fail("using-directive")
+            name = p.ident()
+            p.eat("=")
+            ct, specs = parse_type(p, ctx)
+            p.eat(";")
+            ctx.aliases[name] = ct
+            continue
+        if p.opt("typedef"):
+            ct, specs = parse_type(p, ctx)
+            name = p.ident()
+            p.eat(";")
+            ctx.aliases[name] = ct
+            continue
+        if p.opt("static_assert"):
+            p.eat("(")
+            parse_args(p, ctx, ")")
+            p.eat(";")
+            continue
+        tparams = set()
+        if p.opt("template"):
+            p.eat("<")
+            while not p.opt(">"):
+                if p.opt("typename") or p.opt("class"):
+                    tparams.add(p.ident())
+                    if p.at("="):
+                        p.fail("default template argument")
+                    p.opt(",")
+                else:
+                    p.fail("unsupported template parameter")
+        while p.at("[["):
+            skip_attribute(p)
+        if p.peek()[1] in ("class", "struct", "enum", "union", "extern", "template", "friend", "operator"):
+            p.fail("unsupported declaration `%s`" % p.peek()[1])
+        ctx.tparams = tparams
+        ct, specs = parse_type(p, ctx)
+        while p.at("[["):
+            skip_attribute(p)
+        name = p.ident()
+        if name == "operator":
+            p.fail("operator definition")
+        if p.at("(") and (p.peek(1)[1] == ")" or type_start(p, ctx, 1)):
+            p.eat("(")
+            params = parse_params(p, ctx)
+            while True:
+                if p.opt("noexcept"):
+                    if p.opt("("):
+                        parse_args(p, ctx, ")")
+                elif p.at("[["):
+                    skip_attribute(p)
+                elif p.opt("const") or p.opt("override") or p.opt("final"):
+                    pass
+                else:
+                    break
+            if p.opt("->"):
+                ct, _ = parse_type(p, ctx)
+            if p.opt(";"):
+                unit.decls.setdefault(name, []).append((ct, params))
+            elif p.opt("{"):
+                body = parse_block(p, ctx)
+                unit.funcs.setdefault(name, []).append(
+                    Func(name, ct, params, body, local or "static" in specs, unit.what))
+            else:
+                p.fail("unsupported function declaration")
+        else:
+            if tparams:
+                p.fail("variable template")
+            init = None
+            if p.opt("="):
+                init = ("expr", parse_expr(p, ctx))
+            elif p.opt("{"):
+                init = ("ctor", parse_args(p, ctx, "}"))
+            elif p.opt("("):
+                init = ("ctor", parse_args(p, ctx, ")"))
+            p.eat(";")
+            unit.globals.append((ct, name, init, bool({"const", "constexpr"} & specs)))
+        ctx.tparams = set()
+
+
+def parse_unit(path, what):
+    text = strip_pp(strip_comments(open(path, encoding="utf-8").read()), what)
+    unit = Unit(what)
+    p = P(lex(text), what)
+    parse_toplevel(p, unit, False)
+    if not p.done():
+        p.fail("unbalanced `}`")
+    return unit
+
+
+# ----------------------------------------------------------------------------- abstract interpreter
+#
+# One interpreter executes the statement subset for all four kinds of anchored functions.  Integers that do
+# not depend on the converted value are computed concretely with the C++ rules (types, promotion, wrap);
+# everything else is a symbolic value of a *domain* (one per kind of function), which decides what an
+# operation on it means and raises TranslateError for anything it has no exact meaning for.
+
+class BreakEx(Exception):
+    pass
+
+
+class ContinueEx(Exception):
+    pass
+
+
+class ReturnEx(Exception):
+    def __init__(self, value):
+        self.value = value
+
+
+class NeedDecision(Exception):
+    """a value-dependent condition was reached that the current decision script does not cover"""
+
+    def __init__(self, info):
+        self.info = info
+
+
+class Cell:
+    __slots__ = ("ct", "val", "const")
+
+    def __init__(self, ct, val, const=False):
+        self.ct, self.val, self.const = ct, val, const
+
+
+def conc(bits, signed, n):
+    return ("c", bits, signed, n)
+
+
+def is_conc(v):
+    return isinstance(v, tuple) and v and v[0] == "c"
+
+
+def wrap_mod(bits, signed, n):
+    """conversion to an integer type (modular)"""
+    if bits == 1:
+        return 1 if n != 0 else 0
+    n %= 1 << bits
+    if signed and n >= 1 << (bits - 1):
+        n -= 1 << bits
+    return n
+
+
+def promote(v):
+    _, bits, signed, n = v
+    return v if bits >= 32 else conc(32, True, n)
+
+
+def common_type(a, b):
+    a, b = promote(a), promote(b)
+    if a[1] == b[1]:
+        return a[1], a[2] and b[2]
+    big = a if a[1] > b[1] else b
+    return big[1], big[2]
+
+
+class Domain:
+    what = "?"
+
+    def fail(self, msg):
+        raise TranslateError("%s: %s" % (self.what, msg))
+
+    def binop(self, it, op, a, b):
+        self.fail("unsupported operation `%s` on %s, %s" % (op, show(a), show(b)))
+
+    def unop(self, it, op, a):
+        self.fail("unsupported operation `%s` on %s" % (op, show(a)))
+
+    def convert(self, it, v, ct, explicit):
+        self.fail("unsupported conversion of %s to `%s`" % (show(v), show_type(ct)))
+
+    def truth(self, it, v):
+        self.fail("control flow depends on %s" % show(v))
+
+    def store(self, it, ptr, v):
+        self.fail("unsupported store of %s through %s" % (show(v), show(ptr)))
+
+    def elem_ptr(self, it, base, idx):
+        return it.binop("+", base, idx)
+
+    def call(self, it, name, args):
+        return NotImplemented
+
+    def method(self, it, obj, name, args):
+        self.fail("unsupported member call `.%s()` on %s" % (name, show(obj)))
+
+    def construct(self, it, ct, args):
+        self.fail("unsupported construction of `%s`" % show_type(ct))
+
+    def on_assign(self, it, cell, v):
+        return v
+
+
+def show(v):
+    if is_conc(v):
+        return "the constant %d" % v[3]
+    if isinstance(v, tuple) and v:
+        return "<%s>" % v[0]
+    return repr(v)
+
+
+def show_type(ct):
+    return ct[0] + "*" * ct[1] + ("&" if ct[2] else "")
+
+
+class Interp:
+    MAX_STEPS = 200000
+
+    def __init__(self, unit, dom, what):
+        self.unit, self.dom, self.what = unit, dom, what
+        dom.what = what
+        self.globals = {}
+        self.frames = [[{}]]
+        self.steps = 0
+        self.depth = 0
+        for ct, name, init, is_const in unit.globals:
+            if not is_const:
+                self.globals[name] = Cell(ct, ("mutable-global",), False)
+                continue
+            self.globals[name] = self.make_cell(ct, init, True, name)
+
+    # ---- helpers
+    def fail(self, msg):
+        raise TranslateError("%s: %s" % (self.what, msg))
+
+    def lookup(self, name):
+        for scope in reversed(self.frames[-1]):
+            if name in scope:
+                return scope[name]
+        if name in self.globals:
+            return self.globals[name]
+        self.fail("unknown identifier `%s`" % name)
+
+    def declare(self, name, cell):
+        scope = self.frames[-1][-1]
+        if name in scope:
+            self.fail("`%s` declared twice" % name)
+        scope[name] = cell
+
+    def tick(self):
+        self.steps += 1
+        if self.steps > self.MAX_STEPS:
+            self.fail("does not terminate within %d steps" % self.MAX_STEPS)
+
+    def convert(self, v, ct, explicit=False):
+        if ct[0] == "auto" and not (ct[1] > 0 and is_conc(v)):
+            return v                 # `auto` / `auto*` (the compiler rejects `auto*` for a non-pointer)
+        if is_conc(v):
+            if is_int_type(ct):
+                bits, signed = INT_INFO[ct[0]]
+                return conc(bits, signed, wrap_mod(bits, signed, v[3]))
+            self.fail("constant converted to `%s`" % show_type(ct))
+        return self.dom.convert(self, v, ct, explicit)
+
+    def make_cell(self, ct, init, is_const, name):
+        if init is None:
+            if is_const:
+                self.fail("constant `%s` without initialiser" % name)
+            return Cell(ct, ("uninitialised",), False)
+        if init[0] == "expr":
+            v = self.eval(init[1])
+        else:
+            args = [self.eval(a) for a in init[1]]
+            if is_int_type(ct) or ct[1] > 0 or ct[0] == "auto":
+                if len(args) != 1:
+                    self.fail("`%s` initialised with %d values" % (name, len(args)))
+                v = args[0]
+            else:
+                v = self.dom.construct(self, ct, args)
+        v = self.convert(v, ct)
+        if ct[0] == "auto" and is_conc(v):
+            ct = (next(k for k, x in INT_INFO.items() if x == (v[1], v[2])), ct[1], ct[2])
+        cell = Cell(ct, None, is_const)
+        cell.val = self.dom.on_assign(self, cell, v)
+        return cell
+
+    def truth(self, v):
+        if is_conc(v):
+            return v[3] != 0
+        return self.dom.truth(self, v)
+
+    # ---- concrete arithmetic
+    def carith(self, op, a, b):
+        if op in ("&&", "||"):
+            r = (a[3] != 0 and b[3] != 0) if op == "&&" else (a[3] != 0 or b[3] != 0)
+            return conc(32, True, int(r))
+        bits, signed = common_type(a, b)
+        x, y = wrap_mod(bits, signed, a[3]), wrap_mod(bits, signed, b[3])
+        if op in ("<", "<=", ">", ">=", "==", "!="):
+            r = {"<": x < y, "<=": x <= y, ">": x > y, ">=": x >= y, "==": x == y, "!=": x != y}[op]
+            return conc(32, True, int(r))
+        if op == "+":
+            r = x + y
+        elif op == "-":
+            r = x - y
+        elif op == "*":
+            r = x * y
+        elif op in ("/", "%"):
+            if y == 0:
+                self.fail("division by zero in a constant expression")
+            q = abs(x) // abs(y)
+            if (x < 0) != (y < 0):
+                q = -q
+            r = q if op == "/" else x - q * y
+        elif op in ("&", "|", "^"):
+            if x < 0 or y < 0:
+                self.fail("bit operation on a negative constant")
+            r = {"&": x & y, "|": x | y, "^": x ^ y}[op]
+        else:
+            self.fail("unsupported operator `%s`" % op)
+        if signed and not -(1 << (bits - 1)) <= r < (1 << (bits - 1)):
+            self.fail("signed overflow in a constant expression")
+        return conc(bits, signed, wrap_mod(bits, signed, r))
+
+    def binop(self, op, a, b):
+        if is_conc(a) and is_conc(b):
+            return self.carith(op, a, b)
+        return self.dom.binop(self, op, a, b)
+
+    # ---- expressions
+    def lvalue(self, e):
+        t = e[0]
+        if t == "id":
+            return ("var", self.lookup(e[1]))
+        if t == "un" and e[1] == "*":
+            return ("mem", self.eval(e[2]))
+        if t == "idx":
+            return ("mem", self.dom.elem_ptr(self, self.eval(e[1]), self.eval(e[2])))
+        self.fail("unsupported assignment target")
+
+    def read(self, cell):
+        if cell.val[0] in ("mutable-global", "uninitialised", "dead"):
+            self.fail("read of a %s variable" % cell.val[0])
+        return cell.val
+
+    def assign(self, cell, v):
+        if cell.const:
+            self.fail("assignment to a constant")
+        if cell.val is not None and cell.val[0] == "mutable-global":
+            self.fail("assignment to a global variable")
+        v = self.convert(v, cell.ct)
+        cell.val = self.dom.on_assign(self, cell, v)
+        return cell.val
+
+    def eval(self, e):
+        self.tick()
+        t = e[0]
+        if t == "num":
+            return conc(e[2], e[3], e[1])
+        if t == "chr":
+            return conc(8, True, wrap_mod(8, True, e[1]))
+        if t == "str":
+            return ("strlit", e[1])
+        if t == "null":
+            return ("null",)
+        if t == "id":
+            return self.read(self.lookup(e[1]))
+        if t == "un":
+            op = e[1]
+            if op == "&":
+                x = e[2]
+                if x[0] == "idx":
+                    return self.dom.elem_ptr(self, self.eval(x[1]), self.eval(x[2]))
+                if x[0] == "un" and x[1] == "*":
+                    return self.eval(x[2])
+                self.fail("unsupported address-of")
+            if op == "*":
+                self.fail("read through a pointer")
+            v = self.eval(e[2])
+            if is_conc(v):
+                if op == "!":
+                    return conc(32, True, int(v[3] == 0))
+                p = promote(v)
+                if op == "+":
+                    return p
+                if op == "-":
+                    if p[2] and p[3] == -(1 << (p[1] - 1)):
+                        self.fail("signed overflow in a constant expression")
+                    return conc(p[1], p[2], wrap_mod(p[1], p[2], -p[3]))
+                self.fail("unsupported operator `%s`" % op)
+            return self.dom.unop(self, op, v)
+        if t in ("pre", "post"):
+            kind, cell = self.lvalue(e[2])
+            if kind != "var":
+                self.fail("increment of something that is not a variable")
+            old = self.read(cell)
+            new = self.assign(cell, self.binop("+" if e[1] == "++" else "-", old, conc(32, True, 1)))
+            return new if t == "pre" else old
+        if t == "bin":
+            op = e[1]
+            if op in ("&&", "||"):
+                a = self.truth(self.eval(e[2]))
+                if (op == "&&") != a:
+                    return conc(32, True, int(a))
+                return conc(32, True, int(self.truth(self.eval(e[3]))))
+            a = self.eval(e[2])
+            b = self.eval(e[3])
+            return self.binop(op, a, b)
+        if t == "asg":
+            op = e[1]
+            rhs = self.eval(e[3])
+            kind, target = self.lvalue(e[2])
+            if kind == "var":
+                if op != "=":
+                    rhs = self.binop(op[:-1], self.read(target), rhs)
+                return self.assign(target, rhs)
+            if op != "=":
+                self.fail("compound assignment through a pointer")
+            self.dom.store(self, target, rhs)
+            return rhs
+        if t == "cond":
+            return self.eval(e[2]) if self.truth(self.eval(e[1])) else self.eval(e[3])
+        if t == "cast":
+            return self.convert(self.eval(e[2]), e[1], True)
+        if t == "construct":
+            return self.dom.construct(self, e[1], [self.eval(a) for a in e[2]])
+        if t == "idx":
+            a = self.eval(e[1])
+            i = self.eval(e[2])
+            if a[0] == "strlit" and is_conc(i) and 0 <= i[3] < len(a[1]):
+                return conc(8, True, wrap_mod(8, True, a[1][i[3]]))
+            self.fail("read through a pointer")
+        if t == "call":
+            callee = e[1]
+            if callee[0] == "mem":
+                return self.dom.method(self, self.eval(callee[1]), callee[2], [self.eval(a) for a in e[2]])
+            if callee[0] != "id":
+                self.fail("call through an expression")
+            return self.call(callee[1], e[2])
+        if t == "mem":
+            self.fail("member access `.%s`" % e[2])
+        self.fail("unsupported expression `%s`" % t)
+
+    def call(self, name, args):
+        r = self.dom.call(self, name, args)
+        if r is not NotImplemented:
+            return r
+        if name in ("min", "max") and len(args) == 2:
+            a, b = self.eval(args[0]), self.eval(args[1])
+            if is_conc(a) and is_conc(b) and (a[1], a[2]) == (b[1], b[2]):
+                return (a if a[3] <= b[3] else b) if name == "min" else (a if a[3] >= b[3] else b)
+            self.fail("std::%s on values that are not constants of one type" % name)
+        cands = [f for f in self.unit.defs(name) if len(f.params) >= len(args)
+                 and all(d is not None for _, _, d in f.params[len(args):])]
+        if len(cands) != 1:
+            self.fail("call of `%s`: %s" % (name, "ambiguous" if cands else "no definition in this file"))
+        return self.inline(cands[0], args)
+
+    def inline(self, fn, args):
+        """executes the body of a function of the same file with the arguments bound (by value / by reference)"""
+        if self.depth > 8:
+            self.fail("recursion in `%s`" % fn.name)
+        scope = {}
+        for i, (ct, pname, default) in enumerate(fn.params):
+            if i < len(args):
+                if ct[2] and args[i][0] == "id":
+                    cell = self.lookup(args[i][1])
+                    if (cell.ct[0], cell.ct[1]) != (ct[0], ct[1]) and cell.ct[0] != "auto":
+                        self.fail("reference parameter of `%s` bound to another type" % fn.name)
+                else:
+                    if ct[2]:
+                        self.fail("reference parameter of `%s` bound to a temporary" % fn.name)
+                    cell = Cell((ct[0], ct[1], False), None)
+                    cell.val = self.dom.on_assign(self, cell, self.convert(self.eval(args[i]), cell.ct))
+            else:
+                self.frames.append([{}])
+                try:
+                    v = self.eval(default)
+                finally:
+                    self.frames.pop()
+                cell = Cell((ct[0], ct[1], False), None)
+                cell.val = self.dom.on_assign(self, cell, self.convert(v, cell.ct))
+            if pname is not None:
+                if pname in scope:
+                    self.fail("duplicate parameter name")
+                scope[pname] = cell
+        self.frames.append([scope])
+        self.depth += 1
+        try:
+            self.exec_list(fn.body)
+            result = None
+        except ReturnEx as r:
+            result = r.value
+        except (BreakEx, ContinueEx):
+            self.fail("break/continue outside a loop")
+        finally:
+            self.depth -= 1
+            self.frames.pop()
+        if fn.ret == ("void", 0, False):
+            if result is not None:
+                self.fail("void function `%s` returns a value" % fn.name)
+            return ("void",)
+        if result is None:
+            self.fail("a path of `%s` reaches the end of the function without `return`" % fn.name)
+        return self.convert(result, fn.ret)
+
+    # ---- statements
+    def exec_list(self, stmts):
+        for s in stmts:
+            self.exec(s)
+
+    def exec_scoped(self, stmts):
+        self.frames[-1].append({})
+        try:
+            self.exec_list(stmts)
+        finally:
+            self.frames[-1].pop()
+
+    def exec(self, s):
+        self.tick()
+        t = s[0]
+        if t == "nop":
+            return
+        if t == "expr":
+            self.eval(s[1])
+        elif t == "decl":
+            _, ct, name, init, is_const = s
+            if ct[2]:
+                self.fail("local reference `%s`" % name)
+            self.declare(name, self.make_cell(ct, init, is_const, name))
+        elif t == "block":
+            self.exec_scoped(s[1])
+        elif t == "if":
+            if self.truth(self.eval(s[1])):
+                self.exec_scoped([s[2]])
+            elif s[3] is not None:
+                self.exec_scoped([s[3]])
+        elif t == "return":
+            raise ReturnEx(None if s[1] is None else self.eval(s[1]))
+        elif t == "break":
+            raise BreakEx()
+        elif t == "continue":
+            raise ContinueEx()
+        elif t == "switch":
+            sel = self.eval(s[1])
+            if not is_conc(sel):
+                self.dom.truth(self, sel)
+                self.fail("switch on a value that is not known")
+            items = s[2]
+            start = None
+            seen = set()
+            for i, it in enumerate(items):
+                if it[0] == "case":
+                    lab = self.eval(it[1])
+                    if not is_conc(lab):
+                        self.fail("case label is not a constant")
+                    if lab[3] in seen:
+                        self.fail("duplicate case label %d" % lab[3])
+                    seen.add(lab[3])
+                    if start is None and self.carith("==", sel, lab)[3]:
+                        start = i
+            if start is None:
+                defaults = [i for i, it in enumerate(items) if it[0] == "default"]
+                if len(defaults) > 1:
+                    self.fail("two default labels")
+                start = defaults[0] if defaults else None
+            if start is not None:
+                self.frames[-1].append({})
+                try:
+                    self.exec_list([it for it in items[start:] if it[0] not in ("case", "default")])
+                except BreakEx:
+                    pass
+                finally:
+                    self.frames[-1].pop()
+        elif t in ("while", "for", "dowhile"):
+            self.frames[-1].append({})
+            try:
+                if t == "for":
+                    _, init, cond, incs, body = s
+                    if init is not None:
+                        self.exec(init)
+                elif t == "while":
+                    cond, incs, body = s[1], [], s[2]
+                else:
+                    cond, incs, body = s[2], [], s[1]
+                first = t == "dowhile"
+                while True:
+                    self.tick()
+                    if not first and cond is not None and not self.truth(self.eval(cond)):
+                        break
+                    first = False
+                    try:
+                        self.exec_scoped([body])
+                    except ContinueEx:
+                        pass
+                    for inc in incs:
+                        self.eval(inc)
+            except BreakEx:
+                pass
+            finally:
+                self.frames[-1].pop()
+        else:
+            self.fail("unsupported statement `%s`" % t)
+
+
+def bind_params(it, fn, values):
+    """a fresh frame with the parameters of the analysed function bound to the given abstract values"""
+    scope = {}
+    for (ct, pname, default), v in zip(fn.params, values):
+        if pname is not None:
+            if pname in scope:
+                it.fail("duplicate parameter name")
+            scope[pname] = Cell((ct[0], ct[1], False), v)
+    it.frames = [[scope]]
+
+
+def run_function(it, fn, values):
+    bind_params(it, fn, values)
+    try:
+        it.exec_list(fn.body)
+    except ReturnEx as r:
+        return r.value
+    except (BreakEx, ContinueEx):
+        it.fail("break/continue outside a loop")
+    return None
+
+
+def one_def(unit, name, what, pred=None):
+    fs = [f for f in unit.defs(name) if pred is None or pred(f)]
+    if len(fs) != 1:
+        raise TranslateError("%s: %s" % (what, "function not found" if not fs else "function defined more than once"))
+    return fs[0]
+
+
+def uint_bits(ct):
+    """N for the unsigned fixed-width types, None otherwise"""
+    if is_int_type(ct) and not INT_INFO[ct[0]][1] and INT_INFO[ct[0]][0] >= 8:
+        return INT_INFO[ct[0]][0]
+    return None
+
+
+# ----------------------------------------------------------------------------- intN_str_length: decision trees
+
+class LenDomain(Domain):
+    """the argument after its conversion to uintK_t is `sym d` (= argument / d); a comparison of it with a
+    constant is a decision `argument >= thr`; decisions are taken from a script (path enumeration), decided
+    ones (by the interval of the path) are not asked for"""
+
+    def __init__(self, script, shared):
+        self.script, self.used, self.shared = script, 0, shared
+        self.lo, self.hi = 0, None
+
+    def convert(self, it, v, ct, explicit):
+        if v[0] == "tparam":
+            k = uint_bits(ct)
+            if k is None:
+                self.fail("the argument is converted to `%s`, not to an unsigned fixed-width type" % show_type(ct))
+            if self.shared.setdefault("cast", k) != k:
+                self.fail("the argument is converted to types of different widths")
+            self.hi = 1 << k if self.hi is None else self.hi
+            return ("sym", 1)
+        if v[0] == "sym":
+            k = uint_bits(ct)
+            if k is not None and k >= self.shared["cast"]:
+                return v
+        if v[0] == "cmp" and is_int_type(ct):
+            return conc(32, True, int(self.truth(it, v)))
+        return Domain.convert(self, it, v, ct, explicit)
+
+    def binop(self, it, op, a, b):
+        if a[0] == "cmp" or b[0] == "cmp":
+            a = conc(32, True, int(self.truth(it, a))) if a[0] == "cmp" else a
+            b = conc(32, True, int(self.truth(it, b))) if b[0] == "cmp" else b
+            return it.binop(op, a, b)
+        flip = {"<": ">", "<=": ">=", ">": "<", ">=": "<="}
+        if is_conc(a) and b[0] == "sym" and op in flip:
+            a, b, op = b, a, flip[op]
+        if a[0] == "sym" and is_conc(b):
+            k = b[3]
+            if k < 0:
+                self.fail("comparison/division of the value with a negative constant")
+            d = a[1]
+            if op == "/":
+                if k == 0:
+                    self.fail("division by zero")
+                return ("sym", d * k)
+            # (arg / d) OP k  as  arg >= thr, possibly negated
+            if op == ">=":
+                return ("cmp", k * d, False)
+            if op == ">":
+                return ("cmp", (k + 1) * d, False)
+            if op == "<":
+                return ("cmp", k * d, True)
+            if op == "<=":
+                return ("cmp", (k + 1) * d, True)
+        return Domain.binop(self, it, op, a, b)
+
+    def unop(self, it, op, a):
+        if op == "!" and a[0] == "cmp":
+            return ("cmp", a[1], not a[2])
+        if op == "!" and a[0] == "sym":
+            return ("cmp", a[1], True)
+        return Domain.unop(self, it, op, a)
+
+    def truth(self, it, v):
+        if v[0] == "sym":
+            v = ("cmp", v[1], False)
+        if v[0] != "cmp":
+            return Domain.truth(self, it, v)
+        _, thr, neg = v
+        if thr <= self.lo:
+            ge = True
+        elif thr >= self.hi:
+            ge = False
+        else:
+            if self.used >= len(self.script):
+                raise NeedDecision(thr)
+            ge = self.script[self.used]
+            self.used += 1
+            if ge:
+                self.lo = thr
+            else:
+                self.hi = thr
+        return ge != neg
+
+
+def parse_str_length(repo, n):
+    rel = "src/celma/format/detail/int%d_str_length.hpp" % n
+    what = "int%d_str_length.hpp" % n
+    unit = parse_unit(os.path.join(repo, rel), what)
+    fn = one_def(unit, "int%d_str_length" % n, what)
+    if len(fn.params) != 1 or not fn.params[0][0][0].startswith("tparam:") or fn.params[0][0][1:] != (0, False):
+        raise TranslateError("%s: unexpected parameters" % what)
+    if fn.ret != ("uint8_t", 0, False):
+        raise TranslateError("%s: does not return uint8_t" % what)
+    shared = {}
+    count = [0]
+
+    def explore(prefix):
+        count[0] += 1
+        if count[0] > 2000 or len(prefix) > 200:
+            raise TranslateError("%s: decision tree too large" % what)
+        dom = LenDomain(prefix, shared)
+        it = Interp(unit, dom, what)
+        try:
+            r = run_function(it, fn, [("tparam",)])
+        except NeedDecision as nd:
+            return ("node", nd.info, explore(prefix + [True]), explore(prefix + [False]))
+        if r is None:
+            raise TranslateError("%s: a path reaches the end of the function without `return`" % what)
+        if not is_conc(r):
+            r = it.convert(r, ("uint8_t", 0, False))
+        return ("leaf", wrap_mod(8, False, r[3]))
+
+    tree = explore([])
+    if "cast" not in shared:
+        raise TranslateError("%s: the argument is never converted to an unsigned type" % what)
+    return {"tree": tree, "cast": shared["cast"]}
+
+
+def tree_leaves(t):
+    return [t[1]] if t[0] == "leaf" else tree_leaves(t[2]) + tree_leaves(t[3])
+
+
+# ----------------------------------------------------------------------------- the four callers of a .cpp
+
+LIT0 = ("lit", 0)
+
+
+def e_bin(op, a, b):
+    if a[0] == "lit" and b[0] == "lit" and op in ("add", "sub", "mul"):
+        return ("lit", {"add": a[1] + b[1], "sub": a[1] - b[1], "mul": a[1] * b[1]}[op])
+    if op == "add" and a == LIT0:
+        return b
+    if op in ("add", "sub") and b == LIT0:
+        return a
+    return (op, a, b)
+
+
+class CallerDomain(Domain):
+    """roles instead of names: the value parameter, its negation, the digit count (result of intN_str_length),
+    integer expressions over it, the one expression truncated to uint8_t, the result string, pointers into the
+    string / the caller's buffer with an offset expression"""
+
+    def __init__(self, unit, is_buf, has_group_param):
+        self.unit, self.is_buf = unit, is_buf
+        self.c = {"neg": None, "len_fn": None, "len_abs": False, "glen": None, "str": None, "end": None, "nul": None,
+                  "conv_abs": False, "sign": None, "ret": None, "converter": None}
+        self.converted = False
+        self.param_ct = None
+
+    # -- values
+    def lin(self, v):
+        if is_conc(v):
+            return ("lit", v[3])
+        if v[0] == "lin":
+            return v[1]
+        return None
+
+    def norm(self, v):
+        """an `abs` value that has not been given a name yet is registered here"""
+        if v[0] == "absval":
+            spec = (v[1], v[2], v[3])
+            if self.c["neg"] is not None and self.c["neg"] != spec:
+                self.fail("two different negations of the value")
+            if self.c["len_fn"] is not None and self.c["neg"] is None:
+                self.fail("the value is negated after the length was taken")
+            self.c["neg"] = spec
+            return ("abs",)
+        if v[0] == "lin8":
+            if self.c["glen"] is not None:
+                self.fail("a second expression is truncated to uint8_t")
+            if "glen" in repr(v[1]):
+                self.fail("grouped length defined by itself")
+            self.c["glen"] = v[1]
+            return ("lin", ("glen",))
+        return v
+
+    def on_assign(self, it, cell, v):
+        return self.norm(v)
+
+    def binop(self, it, op, a, b):
+        la, lb = self.lin(a), self.lin(b)
+        names = {"+": "add", "-": "sub", "*": "mul", "/": "div"}
+        if la is not None and lb is not None and op in names:
+            if op == "/" and (lb[0] != "lit" or lb[1] == 0):
+                self.fail("division by something that is not a non-zero constant")
+            return ("lin", e_bin(names[op], la, lb))
+        for ptr, off, swapped in ((a, lb, False), (b, la, True)):
+            if ptr[0] in ("sptr", "bptr", "cptr") and off is not None and (op == "+" or (op == "-" and not swapped)):
+                return (ptr[0], e_bin("add" if op == "+" else "sub", ptr[1], off))
+        return Domain.binop(self, it, op, a, b)
+
+    def unop(self, it, op, a):
+        if op == "-":
+            if a[0] == "param":
+                return ("neg", "inSigned", 0)
+            if a[0] == "ucast":
+                return ("neg", "inUnsigned", a[1])
+            if self.lin(a) is not None:
+                return ("lin", e_bin("sub", LIT0, self.lin(a)))
+        return Domain.unop(self, it, op, a)
+
+    def convert(self, it, v, ct, explicit):
+        t = v[0]
+        pbits, psigned = INT_INFO[self.param_ct[0]]
+        if t == "param":
+            if is_int_type(ct) and INT_INFO[ct[0]] == (pbits, psigned):
+                return v
+            k = uint_bits(ct)
+            if k is not None:
+                return ("ucast", k)
+        elif t == "ucast":
+            if uint_bits(ct) == v[1]:
+                return v
+        elif t == "neg":
+            k = uint_bits(ct)
+            if k is not None:
+                return ("absval", v[1], v[2], k)
+        elif t in ("absval", "abs"):
+            k = uint_bits(ct)
+            if t == "absval" and k == v[3]:
+                return v
+            if t == "abs" and self.c["neg"] is not None and k == self.c["neg"][2]:
+                return v
+        elif t == "lin":
+            e = v[1]
+            atom = e[0] in ("len", "glen") or (e[0] == "lit" and 0 <= e[1] <= 255)
+            if is_int_type(ct):
+                bits, signed = INT_INFO[ct[0]]
+                if atom and bits >= 8 and not (bits == 8 and signed):
+                    return v
+                if (bits, signed) == (32, True):
+                    return v
+                if (bits, signed) == (8, False):
+                    return ("lin8", e)
+        elif t == "lin8":
+            if ct == ("uint8_t", 0, False):
+                return v
+        elif t in ("sptr", "bptr"):
+            if ct[0] == "char" and ct[1] == 1:
+                return v
+        elif t == "cptr":
+            if ct[0] == "char" and ct[1] == 1:
+                return ("sptr", v[1]) if explicit else v
+        elif t == "strobj":
+            if ct == ("string", 0, False):
+                return v
+        elif t == "grp":
+            if ct == ("char", 0, False):
+                return v
+        return Domain.convert(self, it, v, ct, explicit)
+
+    def elem_ptr(self, it, base, idx):
+        if base[0] == "strobj":
+            off = self.lin(idx)
+            if off is None:
+                self.fail("index into the result string is not an integer expression")
+            return ("sptr", off)
+        return it.binop("+", base, idx)
+
+    def construct(self, it, ct, args):
+        if ct != ("string", 0, False) or self.is_buf:
+            self.fail("unexpected construction of `%s`" % show_type(ct))
+        if len(args) != 2 or self.lin(args[0]) is None or not is_conc(args[1]) or args[1][1] != 8:
+            self.fail("the result string is not built as string( size, character)")
+        if self.c["str"] is not None:
+            self.fail("two result strings")
+        if self.c["len_fn"] is None:
+            self.fail("result string before the length is known")
+        self.c["str"] = (self.lin(args[0]), args[1][3] % 256)
+        return ("strobj",)
+
+    def method(self, it, obj, name, args):
+        if obj[0] == "strobj" and not args:
+            if name == "c_str":
+                return ("cptr", LIT0)
+            if name == "data":
+                return ("sptr", LIT0)
+            if name in ("size", "length"):
+                return ("lin", self.c["str"][0])
+        return Domain.method(self, it, obj, name, args)
+
+    def store(self, it, ptr, v):
+        if ptr[0] != "bptr" or not is_conc(v) or v[1] != 8:
+            return Domain.store(self, it, ptr, v)
+        key = "sign" if self.converted else "nul"
+        if self.c[key] is not None:
+            self.fail("more than one store %s the conversion call" % ("after" if self.converted else "before"))
+        self.c[key] = (ptr[1], v[3] % 256)
+
+    def call(self, it, name, args):
+        m = re.fullmatch(r"int(8|16|32|64)_str_length", name)
+        if m:
+            if len(args) != 1 or self.c["len_fn"] is not None:
+                self.fail("unexpected use of the length function")
+            v = self.norm(it.eval(args[0]))
+            if v[0] not in ("param", "abs"):
+                self.fail("unexpected argument of the length function: %s" % show(v))
+            self.c["len_fn"] = int(m.group(1))
+            self.c["len_abs"] = v[0] == "abs"
+            return ("lin", ("len",))
+        cands = [f for f in self.unit.defs(name) if f.local and f.ret == ("void", 0, False) and f.params
+                 and f.params[0][0] == ("char", 1, False) and len(f.params) == len(args)]
+        if cands:
+            if len(cands) != 1:
+                self.fail("conversion function `%s` is overloaded" % name)
+            fn = cands[0]
+            if self.converted:
+                self.fail("the conversion function is called twice")
+            if len(args) not in (3, 4):
+                self.fail("unexpected number of arguments of the conversion function")
+            vals = [self.norm(it.eval(a)) for a in args]
+            want = "bptr" if self.is_buf else "sptr"
+            if vals[0][0] != want:
+                self.fail("first argument of the conversion function is %s" % show(vals[0]))
+            if vals[1][0] not in ("param", "abs"):
+                self.fail("unexpected value argument of the conversion function: %s" % show(vals[1]))
+            if vals[2] != ("lin", ("len",)):
+                self.fail("third argument of the conversion function is not the digit count")
+            if len(args) == 4 and vals[3] != ("grp",):
+                self.fail("fourth argument of the conversion function is not the group character")
+            self.c["end"] = vals[0][1]
+            self.c["conv_abs"] = vals[1][0] == "abs"
+            self.c["converter"] = fn
+            self.converted = True
+            return ("void",)
+        return NotImplemented
+
+
+def parse_caller(unit, what, fname, is_buf):
+    fwhat = "%s %s" % (what, fname)
+    fn = one_def(unit, fname, fwhat, lambda f: (bool(f.params) and f.params[0][0] == ("char", 1, False)) == is_buf)
+    want_ret = ("int", 0, False) if is_buf else ("string", 0, False)
+    if fn.ret != want_ret:
+        raise TranslateError("%s: unexpected return type" % fwhat)
+    ps = fn.params[1:] if is_buf else fn.params
+    if not ps or not is_int_type(ps[0][0]) or INT_INFO[ps[0][0][0]][0] not in WIDTHS or ps[0][0][0] in ("int", "unsigned", "size_t"):
+        raise TranslateError("%s: unexpected value parameter" % fwhat)
+    if len(ps) > 2 or (len(ps) == 2 and ps[1][0] != ("char", 0, False)):
+        raise TranslateError("%s: unexpected parameters" % fwhat)
+    dom = CallerDomain(unit, is_buf, len(ps) == 2)
+    dom.param_ct = ps[0][0]
+    it = Interp(unit, dom, fwhat)
+    values = ([("bptr", LIT0)] if is_buf else []) + [("param",)] + ([("grp",)] if len(ps) == 2 else [])
+    r = run_function(it, fn, values)
+    c = dom.c
+    if r is None:
+        raise TranslateError("%s: no return statement" % fwhat)
+    if not dom.converted:
+        raise TranslateError("%s: return before the conversion function is called" % fwhat)
+    if is_buf:
+        e = dom.lin(r)
+        if e is None:
+            raise TranslateError("%s: the return value is not an integer expression" % fwhat)
+        c["ret"] = e
+    else:
+        if r != ("strobj",):
+            raise TranslateError("%s: does not return the result string" % fwhat)
+        c["ret"] = LIT0
+    if c["len_fn"] is None:
+        raise TranslateError("%s: the length function is not called" % fwhat)
+    c["pbits"], c["psigned"] = INT_INFO[ps[0][0][0]]
+    return c
+
+
+# ----------------------------------------------------------------------------- the conversion function
+
+class ConvertDomain(Domain):
+    """executed once per digit count k: `result_len` is the constant k, every integer that does not depend on
+    the value is computed, `buffer` is the position relative to its start value, `value` is the sequence of
+    its divisors; what remains is the trace of stores and divisions"""
+
+    def __init__(self, conv_bits):
+        self.bits = conv_bits
+        self.trace = []
+        self.divs = ()
+        self.pos = 0
+        self.last_store = None
+
+    def binop(self, it, op, a, b):
+        if a[0] == "buf" and is_conc(b) and op in ("+", "-"):
+            return ("buf", a[1] + (b[3] if op == "+" else -b[3]))
+        if b[0] == "buf" and is_conc(a) and op == "+":
+            return ("buf", b[1] + a[3])
+        if a[0] == "val" and is_conc(b) and op in ("/", "%"):
+            if b[3] < 0:
+                self.fail("division of the value by a negative constant")
+            return ("val", a[1] + (b[3],)) if op == "/" else ("valmod", a[1], b[3])
+        if op == "+":
+            for x, y in ((a, b), (b, a)):
+                if is_conc(x) and y[0] in ("val", "valmod"):
+                    return ("digit", x[3], y[2] if y[0] == "valmod" else None, y[1])
+        if a[0] in ("val", "valmod") or b[0] in ("val", "valmod"):
+            self.fail("unsupported operation `%s` on the value (control flow and arithmetic must not depend on it)" % op)
+        return Domain.binop(self, it, op, a, b)
+
+    def convert(self, it, v, ct, explicit):
+        t = v[0]
+        if t == "buf" and ct[0] == "char" and ct[1] == 1:
+            return v
+        if t == "val":
+            k = uint_bits(ct)
+            if k is not None and k >= self.bits:
+                return v
+        if t == "valmod" and is_int_type(ct) and INT_INFO[ct[0]][0] >= 8 and v[2] <= 128:
+            return v
+        if t == "digit" and is_int_type(ct) and INT_INFO[ct[0]][0] >= 8:
+            return v
+        if t == "grp" and ct == ("char", 0, False):
+            return v
+        return Domain.convert(self, it, v, ct, explicit)
+
+    def truth(self, it, v):
+        if v[0] in ("val", "valmod", "digit"):
+            self.fail("control flow depends on the value being converted")
+        return Domain.truth(self, it, v)
+
+    def on_assign(self, it, cell, v):
+        if v[0] == "val":
+            d = v[1]
+            if d[:len(self.divs)] != self.divs:
+                self.fail("the value is not divided step by step")
+            for x in d[len(self.divs):]:
+                self.trace.append(["div", x])
+            self.divs = d
+        return v
+
+    def store(self, it, ptr, v):
+        if ptr[0] != "buf":
+            return Domain.store(self, it, ptr, v)
+        if v[0] == "digit":
+            if v[3] != self.divs:
+                self.fail("a digit is taken from a stale copy of the value")
+            op = ["emit", v[1], v[2], False]
+        elif v[0] == "grp":
+            op = ["group", False]
+        else:
+            return Domain.store(self, it, ptr, v)
+        pos = -ptr[1]
+        if pos == self.pos + 1 and self.last_store is not None:
+            self.last_store[-1] = True        # the pointer was decremented after the previous store
+            self.pos = pos
+        elif pos != self.pos:
+            self.fail("stores are not at consecutive descending positions starting at buffer_end")
+        self.trace.append(op)
+        self.last_store = op
+
+
+def convert_trace(unit, fn, what, conv_bits, k, group_param):
+    dom = ConvertDomain(conv_bits)
+    it = Interp(unit, dom, "%s %s() with %d digits" % (what, fn.name, k))
+    lb, ls = INT_INFO[fn.params[2][0][0]]
+    values = [("buf", 0), ("val", ()), conc(lb, ls, k)] + ([("grp",)] if group_param else [])
+    r = run_function(it, fn, values)
+    if r is not None:
+        it.fail("returns a value")
+    return tuple(tuple(op) for op in dom.trace)
+
+
+def parse_convert(unit, fn, what, leaves):
+    ps = fn.params
+    if len(ps) not in (3, 4) or ps[0][0] != ("char", 1, False):
+        raise TranslateError("%s: %s() has unexpected parameters" % (what, fn.name))
+    bits = uint_bits(ps[1][0])
+    if bits is None or ps[1][0][0] == "size_t":
+        raise TranslateError("%s: %s() does not take an unsigned fixed-width value" % (what, fn.name))
+    lt = ps[2][0]
+    if not is_int_type(lt) or INT_INFO[lt[0]][0] < 8 or INT_INFO[lt[0]] == (8, True):
+        raise TranslateError("%s: %s() has an unexpected digit count parameter" % (what, fn.name))
+    has_group = len(ps) == 4
+    if has_group and ps[3][0] != ("char", 0, False):
+        raise TranslateError("%s: %s() has an unexpected 4th parameter" % (what, fn.name))
+    domain = sorted(set(leaves))
+    if any(not 0 <= k <= 255 for k in domain):
+        raise TranslateError("%s: the length function returns a value outside uint8_t" % what)
+    traces = {k: convert_trace(unit, fn, what, bits, k, has_group) for k in range(256)}
+    outside = [traces[k] for k in range(256) if k not in domain]
+    exact = len(set(outside)) == 1
+    default = outside[0] if exact else None
+    explicit = [k for k in reversed(domain) if traces[k] != default]
+    seq = [(k, traces[k]) for k in explicit] + ([(None, default)] if exact else [])
+    rows = []
+    for i, (label, tr) in enumerate(seq):
+        nxt = seq[i + 1][1] if i + 1 < len(seq) else ()
+        if len(tr) >= len(nxt) and tr[len(tr) - len(nxt):] == nxt:
+            rows.append({"label": label, "ops": list(tr[:len(tr) - len(nxt)]), "fall": True})
+        else:
+            rows.append({"label": label, "ops": list(tr), "fall": False})
+    return {"bits": bits, "has_group": has_group, "nd_init": 0, "rows": rows, "exact_outside": exact, "name": fn.name}
+
+
+def merged_unit(repo, rel_hpp, rel_cpp):
+    """the detail header and its .cpp as one unit: a function may live in either of them (a name defined in
+    both is an error where it is looked up)"""
+    a = parse_unit(os.path.join(repo, rel_hpp), os.path.basename(rel_hpp))
+    b = parse_unit(os.path.join(repo, rel_cpp), os.path.basename(rel_cpp))
+    u = Unit(os.path.basename(rel_cpp))
+    for x in (a, b):
+        for name, fs in x.funcs.items():
+            u.funcs.setdefault(name, []).extend(fs)
+        for name, ds in x.decls.items():
+            u.decls.setdefault(name, []).extend(ds)
+        for g in x.globals:
+            if any(g[1] == h[1] for h in u.globals):
+                raise TranslateError("%s: `%s` is defined in the header and in the .cpp" % (u.what, g[1]))
+            u.globals.append(g)
+        u.ctx.aliases.update(x.ctx.aliases)
+    return u
+
+
+def parse_cpp(repo, n, grouped, trees):
     rel = "src/library/format/detail/%sint%d_to_string.cpp" % ("grouped_" if grouped else "", n)
+    rel_hpp = "src/celma/format/detail/%sint%d_to_string.hpp" % ("grouped_" if grouped else "", n)
     what = os.path.basename(rel)
-    toks = lex(strip_comments(open(os.path.join(repo, rel), encoding="utf-8").read()))
-    conv = parse_convert(toks, what)
-    pre = "grouped" if grouped else ""
+    unit = merged_unit(repo, rel_hpp, rel)
     uname = ("groupedUint%dtoString" if grouped else "uint%dtoString") % n
     nname = ("groupedInt%dnegToString" if grouped else "int%dnegToString") % n
     callers = {
-        "ustr": parse_caller(toks, what, uname, False, conv["has_group"]),
-        "nstr": parse_caller(toks, what, nname, False, conv["has_group"]),
-        "ubuf": parse_caller(toks, what, uname, True, conv["has_group"]),
-        "nbuf": parse_caller(toks, what, nname, True, conv["has_group"]),
+        "ustr": parse_caller(unit, what, uname, False),
+        "nstr": parse_caller(unit, what, nname, False),
+        "ubuf": parse_caller(unit, what, uname, True),
+        "nbuf": parse_caller(unit, what, nname, True),
     }
     lens = set(c["len_fn"] for c in callers.values())
     if len(lens) != 1:
         raise TranslateError("%s: the callers use different length functions %r" % (what, lens))
-    return {"rel": rel, "conv": conv, "callers": callers, "len_fn": lens.pop(), "uname": uname, "nname": nname}
+    convs = set(id(c["converter"]) for c in callers.values())
+    if len(convs) != 1:
+        raise TranslateError("%s: the callers use different conversion functions" % what)
+    len_fn = lens.pop()
+    if len_fn not in trees:
+        raise TranslateError("%s: unknown length function" % what)
+    conv = parse_convert(unit, callers["ustr"]["converter"], what, tree_leaves(trees[len_fn]["tree"]))
+    return {"rel": rel, "conv": conv, "callers": callers, "len_fn": len_fn, "uname": uname, "nname": nname, "unit": unit}
 
 
 # ----------------------------------------------------------------------------- dispatch headers
 
 COND = {"<": "lt0", "<=": "le0", "==": "eq0", "!=": "ne0", ">=": "ge0", ">": "gt0"}
+COND_FLIP = {"<": ">", "<=": ">=", ">": "<", ">=": "<=", "==": "==", "!=": "!="}
+COND_NOT = {"lt0": "ge0", "ge0": "lt0", "le0": "gt0", "gt0": "le0", "eq0": "ne0", "ne0": "eq0"}
+COND_HOLDS = {"lt0": {"neg"}, "le0": {"neg", "zero"}, "eq0": {"zero"}, "ne0": {"neg", "pos"}, "ge0": {"zero", "pos"},
+              "gt0": {"pos"}}
 
 
-def parse_dispatch_body(p, is_buf, uname, nname, grouped):
-    def call_target():
-        """after `return`"""
-        if p.opt("std", "::", "string", "("):
-            tok = p.next()
-            if tok[0] != "str":
-                p.fail("std::string( … ) without a literal")
-            p.eat(")", ";")
-            bs = string_bytes(tok[1])
-            return ("lit", bs, len(bs))
-        name = p.ident()
-        if name not in (uname, nname):
-            p.fail("call of unexpected function `%s`" % name)
-        p.eat("(")
-        if is_buf:
-            p.eat("buffer", ",")
-        p.eat("value")
-        if grouped:
-            p.eat(",", "group_char")
-        p.eat(")", ";")
-        return ("neg",) if name == nname else ("unsigned",)
+class DispatchDomain(Domain):
+    def __init__(self, script, is_buf, bits, uname, nname, grouped):
+        self.script, self.used = script, 0
+        self.is_buf, self.bits, self.uname, self.nname, self.grouped = is_buf, bits, uname, nname, grouped
+        self.feasible = {"neg", "zero", "pos"}
+        self.bytes = {}
 
-    def target():
-        if p.opt("{"):
-            if p.opt("::") or True:
-                if p.opt("strcpy", "(", "buffer", ","):
-                    tok = p.next()
-                    if tok[0] != "str":
-                        p.fail("strcpy without a literal")
-                    p.eat(")", ";", "return")
-                    r = p.next()
-                    if r[0] != "num":
-                        p.fail("non-literal return value")
-                    p.eat(";", "}")
-                    return ("lit", string_bytes(tok[1]), num_value(r[1]))
-            p.eat("return")
-            t = call_target()
-            p.eat("}")
-            return t
-        p.eat("return")
-        return call_target()
+    def binop(self, it, op, a, b):
+        if is_conc(a) and b[0] == "param" and op in COND_FLIP:
+            a, b, op = b, a, COND_FLIP[op]
+        if a[0] == "param" and is_conc(b) and op in COND:
+            if b[3] != 0:
+                self.fail("comparison against something other than 0")
+            return ("dc", COND[op])
+        if a[0] == "bptr" and is_conc(b) and op == "+":
+            return ("bptr", a[1] + b[3])
+        return Domain.binop(self, it, op, a, b)
 
-    branches = []
-    while not p.done():
-        if p.opt("if", "("):
-            if p.ident() != "value":
-                p.fail("condition is not about `value`")
-            op = p.next()[1]
-            if op not in COND:
-                p.fail("unsupported comparison")
-            lit = p.next()
-            if lit[0] != "num" or num_value(lit[1]) != 0:
-                p.fail("comparison against something other than 0")
-            p.eat(")")
-            branches.append((COND[op], target()))
-        else:
-            branches.append(("always", target()))
-            if not p.done():
-                p.fail("statements after the unconditional return")
-    return branches
+    def unop(self, it, op, a):
+        if op == "!" and a[0] == "param":
+            return ("dc", "eq0")
+        if op == "!" and a[0] == "dc":
+            return ("dc", COND_NOT[a[1]])
+        return Domain.unop(self, it, op, a)
+
+    def truth(self, it, v):
+        if v[0] == "param":
+            v = ("dc", "ne0")
+        if v[0] != "dc":
+            return Domain.truth(self, it, v)
+        holds = COND_HOLDS[v[1]]
+        if self.feasible <= holds:
+            return True
+        if not (self.feasible & holds):
+            return False
+        if self.used >= len(self.script):
+            raise NeedDecision(v[1])
+        d = self.script[self.used]
+        self.used += 1
+        self.feasible = (self.feasible & holds) if d else (self.feasible - holds)
+        return d
+
+    def convert(self, it, v, ct, explicit):
+        t = v[0]
+        if t == "param":
+            if is_int_type(ct) and INT_INFO[ct[0]] == (self.bits, True):
+                return v
+            if uint_bits(ct) == self.bits:
+                return ("uparam",)
+        if t == "uparam" and uint_bits(ct) == self.bits:
+            return v
+        if t == "tgt" and ct in (("string", 0, False), ("int", 0, False)):
+            return v
+        if t == "strlit" and ct == ("string", 0, False):
+            return ("strval", v[1])
+        if t == "strval" and ct == ("string", 0, False):
+            return v
+        if t == "bptr" and ct == ("char", 1, False):
+            return v
+        if t == "grp" and ct == ("char", 0, False):
+            return v
+        return Domain.convert(self, it, v, ct, explicit)
+
+    def construct(self, it, ct, args):
+        if ct == ("string", 0, False):
+            if len(args) == 1 and args[0][0] == "strlit":
+                return ("strval", args[0][1])
+            if len(args) == 2 and is_conc(args[0]) and is_conc(args[1]) and args[1][1] == 8 and 0 <= args[0][3] <= 64:
+                return ("strval", (args[1][3] % 256,) * args[0][3])
+        return Domain.construct(self, it, ct, args)
+
+    def store(self, it, ptr, v):
+        if ptr[0] == "bptr" and is_conc(v) and v[1] == 8:
+            self.bytes[ptr[1]] = v[3] % 256
+            return
+        return Domain.store(self, it, ptr, v)
+
+    def call(self, it, name, args):
+        if name in (self.uname, self.nname):
+            vals = [it.eval(a) for a in args]
+            want = ([("bptr", 0)] if self.is_buf else []) + [None] + ([("grp",)] if self.grouped else [])
+            if len(vals) != len(want):
+                self.fail("call of `%s` with an unexpected number of arguments" % name)
+            for i, (v, w) in enumerate(zip(vals, want)):
+                if w is None:
+                    if v != ("param",) and not (name == self.uname and v == ("uparam",)):
+                        self.fail("call of `%s` with %s as the value" % (name, show(v)))
+                elif v != w:
+                    self.fail("unexpected argument %d in the call of `%s`" % (i + 1, name))
+            return ("tgt", "neg" if name == self.nname else "unsigned")
+        if name == "strcpy" and self.is_buf and len(args) == 2:
+            dst, src = it.eval(args[0]), it.eval(args[1])
+            if dst != ("bptr", 0) or src[0] != "strlit":
+                self.fail("strcpy with unexpected arguments")
+            for i, b in enumerate(tuple(src[1]) + (0,)):
+                self.bytes[i] = b
+            return ("bptr", 0)
+        return NotImplemented
+
+    def result(self, r):
+        if r is None:
+            self.fail("a path reaches the end of the function without `return`")
+        if r[0] == "tgt":
+            if self.bytes:
+                self.fail("stores into the buffer before the call")
+            return (r[1],)
+        if not self.is_buf and r[0] in ("strval", "strlit"):
+            return ("lit", list(r[1]), len(r[1]))
+        if self.is_buf and is_conc(r) and self.bytes:
+            n = len(self.bytes)
+            if sorted(self.bytes) != list(range(n)) or self.bytes[n - 1] != 0 or 0 in [self.bytes[i] for i in range(n - 1)]:
+                self.fail("the literal text written into the buffer is not one NUL-terminated string")
+            return ("lit", [self.bytes[i] for i in range(n - 1)], r[3])
+        self.fail("unexpected return value %s" % show(r))
 
 
-def parse_hpp(repo, n, grouped, uname, nname):
+def dispatch_branches(unit, fn, what, is_buf, bits, uname, nname, grouped):
+    count = [0]
+
+    def explore(prefix):
+        count[0] += 1
+        if count[0] > 64:
+            raise TranslateError("%s: too many branches" % what)
+        dom = DispatchDomain(prefix, is_buf, bits, uname, nname, grouped)
+        it = Interp(unit, dom, what)
+        values = ([("bptr", 0)] if is_buf else []) + [("param",)] + ([("grp",)] if grouped else [])
+        try:
+            r = run_function(it, fn, values)
+        except NeedDecision as nd:
+            yes = explore(prefix + [True])
+            if len(yes) != 1:
+                raise TranslateError("%s: nested conditions in the branch of `value %s`" % (what, nd.info))
+            return [(nd.info, yes[0][1])] + explore(prefix + [False])
+        return [("always", dom.result(r))]
+
+    return explore([])
+
+
+def parse_hpp(repo, n, grouped, uname, nname, unit):
     rel = "src/celma/format/detail/%sint%d_to_string.hpp" % ("grouped_" if grouped else "", n)
     what = os.path.basename(rel)
-    toks = lex(strip_comments(open(os.path.join(repo, rel), encoding="utf-8").read()))
     sname = ("groupedInt%dtoString" if grouped else "int%dtoString") % n
     out = {"rel": rel, "sname": sname}
     for key, is_buf in (("str", False), ("buf", True)):
-        ret_pred = (lambda pre: pre[-1:] == ["int"]) if is_buf else (lambda pre: pre[-3:] == ["std", "::", "string"])
-        # both overloads have the same name: pick by the first parameter
-        found = None
-        for nth in range(4):
-            try:
-                name, params, body = find_function(toks, what + " " + sname, ret_pred, lambda nm: nm == sname, nth)
-            except TranslateError:
-                break
-            ps = [[t[1] for t in x] for x in split_params(params)]
-            if (ps[0] == ["char", "*", "buffer"]) == is_buf:
-                found = (ps, body)
-                break
-        if found is None:
-            raise TranslateError("%s: %s overload of %s not found" % (what, key, sname))
-        ps, body = found
-        if is_buf:
-            ps = ps[1:]
-        if len(ps[0]) != 2 or ps[0][1] != "value":
-            raise TranslateError("%s: unexpected value parameter of %s" % (what, sname))
-        bits, signed = int_type_bits(ps[0][0], what)
+        fwhat = "%s %s(%s)" % (what, sname, key)
+        fn = one_def(unit, sname, fwhat, lambda f: (bool(f.params) and f.params[0][0] == ("char", 1, False)) == is_buf)
+        if fn.ret != (("int", 0, False) if is_buf else ("string", 0, False)):
+            raise TranslateError("%s: unexpected return type" % fwhat)
+        ps = fn.params[1:] if is_buf else fn.params
+        if not ps or not is_int_type(ps[0][0]) or ps[0][0][0] in ("int", "unsigned", "size_t", "char", "bool"):
+            raise TranslateError("%s: unexpected value parameter" % fwhat)
+        bits, signed = INT_INFO[ps[0][0][0]]
         if not signed:
-            raise TranslateError("%s: %s takes an unsigned value" % (what, sname))
-        if grouped and (len(ps) != 2 or ps[1][:2] != ["char", "group_char"]):
-            raise TranslateError("%s: %s lacks the group_char parameter" % (what, sname))
+            raise TranslateError("%s: takes an unsigned value" % fwhat)
+        if len(ps) != (2 if grouped else 1) or (grouped and ps[1][0] != ("char", 0, False)):
+            raise TranslateError("%s: unexpected parameters" % fwhat)
         out.setdefault("bits", bits)
         if out["bits"] != bits:
             raise TranslateError("%s: overloads of %s differ in the value type" % (what, sname))
-        out[key] = parse_dispatch_body(P(body, "%s %s(%s)" % (what, sname, key)), is_buf, uname, nname, grouped)
+        out[key] = dispatch_branches(unit, fn, fwhat, is_buf, bits, uname, nname, grouped)
     # the unsigned / negative functions must be declared with the types the .cpp defines (the compiler checks that)
     return out
 
@@ -820,6 +2079,8 @@ def lean_op(o):
         return "div %d" % o[1]
     if o[0] == "inc":
         return "inc"
+    if o[0] == "group":
+        return "group %s" % ("true" if o[1] else "false")
     return "check %d %d" % (o[1], o[2])
 
 
@@ -854,8 +2115,8 @@ def generate(repo):
     files, hdrs, names = {}, {}, {False: {}, True: {}}
     for grouped in (False, True):
         for n in WIDTHS:
-            f = parse_cpp(repo, n, grouped)
-            h = parse_hpp(repo, n, grouped, f["uname"], f["nname"])
+            f = parse_cpp(repo, n, grouped, trees)
+            h = parse_hpp(repo, n, grouped, f["uname"], f["nname"], f["unit"])
             files[(grouped, n)] = f
             hdrs[(grouped, n)] = h
             names[grouped][h["sname"]] = (n, True)
@@ -904,6 +2165,8 @@ def generate(repo):
             w("  lenCast := %d" % trees[f["len_fn"]]["cast"])
             w("  convBits := %d" % f["conv"]["bits"])
             w("  ndInit := %d" % f["conv"]["nd_init"])
+            if not f["conv"]["exact_outside"]:
+                w("  -- rows: one per digit count the length function can return (the only arguments `%s()` is called with)" % f["conv"]["name"])
             w("  rows := [")
             rows = f["conv"]["rows"]
             for i, r in enumerate(rows):
@@ -971,8 +2234,8 @@ def generate(repo):
         "files_read": 4 + 8 + 8 + 2,
         "trees": {str(n): {"leaves": count_leaves(trees[n]["tree"]), "cast_bits": trees[n]["cast"]} for n in WIDTHS},
         "switch_rows": {("grouped" if g else "plain") + str(n): len(files[(g, n)]["conv"]["rows"]) for g in (False, True) for n in WIDTHS},
-        "negation": {("grouped" if g else "plain") + str(n): files[(g, n)]["callers"]["nstr"]["neg"][0] + "/" +
-                     files[(g, n)]["callers"]["nbuf"]["neg"][0] for g in (False, True) for n in WIDTHS},
+        "negation": {("grouped" if g else "plain") + str(n): "/".join(
+            (files[(g, n)]["callers"][k]["neg"] or ("none",))[0] for k in ("nstr", "nbuf")) for g in (False, True) for n in WIDTHS},
         "obligations": len(obligations),
     }
     return text, report
